@@ -386,6 +386,8 @@ func (s *solutionImpl) addInitialSolution(m Model) error {
 
 		infeasiblePlanUnits := map[SolutionPlanUnit]bool{}
 		allPlanUnits := map[SolutionPlanUnit]bool{}
+		// the order in which the units are filed below must not depend on map iteration
+		orderedPlanUnits := make(SolutionPlanUnits, 0, len(planUnits))
 
 	PlanUnitLoop:
 		for _, planUnit := range planUnits {
@@ -393,6 +395,9 @@ func (s *solutionImpl) addInitialSolution(m Model) error {
 			previousStop := solutionVehicle.First()
 
 			solutionPlanUnit := s.unwrapRootPlanUnit(planUnit)
+			if !allPlanUnits[solutionPlanUnit] {
+				orderedPlanUnits = append(orderedPlanUnits, solutionPlanUnit)
+			}
 			allPlanUnits[solutionPlanUnit] = true
 
 		ModelStopLoop:
@@ -545,7 +550,7 @@ func (s *solutionImpl) addInitialSolution(m Model) error {
 			infeasiblePlanUnits[s.unwrapRootPlanUnit(s.stopToPlanUnit[index])] = true
 		}
 
-		for solutionPlanUnit := range allPlanUnits {
+		for _, solutionPlanUnit := range orderedPlanUnits {
 			if _, ok := infeasiblePlanUnits[solutionPlanUnit]; ok {
 				continue
 			}
